@@ -35,6 +35,7 @@ DEFAULTS = dict(
     p_in_lit_left=0.0,   # `literal in [..]` with repeated / variable elements
     p_spread_edb=0.0,    # fact table with pairwise different values in one Num column
     avoid_d11=True,      # known finding C01 D11 (see gen.cmp); False re-derives it
+    p_uminus=0.0,        # unary minus (also nested: -(-x))
     p_unnest_chain=0.0,  # x in L, l == List{z :- z in [x, ..]}, y in l
     p_recif=0.0,         # a variable bound to a record-valued if-then-else, read >= 2 times
     # --- C08 / C09 profile (all default to "off": the rng stream of other checks is unchanged)
@@ -273,6 +274,13 @@ class Gen(object):
                 self.labels.add('size')
                 return ('size', ('var', rng.choice(self.bound(env, 'LS'))))
         if t == 'N':
+            if self.o['p_uminus'] and self.chance(self.o['p_uminus']):
+                # unary minus, half of the time of something that is itself negated
+                inner = self.expr('N', env, depth - 1, allow_fcall)
+                if self.chance(0.5):
+                    inner = ('bin', 'neg', ('lit', 0), inner)
+                self.labels.add('unary_minus')
+                return ('bin', 'neg', ('lit', 0), inner)
             return ('bin', rng.choice(['+', '-', '*']),
                     self.expr('N', env, depth - 1, allow_fcall),
                     self.expr('N', env, depth - 1, allow_fcall))
